@@ -779,7 +779,8 @@ def run_utilities(ctx):
 def run(ctx):
     ctx.note('rule', 'one case = one seeded geometry / detector / factory volume / utility input; geometry classes x detector '
                      'kinds x {translation, shift functions, init matrices, helical pitch} are enumerated, the seed varies vectors, '
-                     'angles and detector parameters; evaluation forms {scalar, array, broadcast}; distinct = distinct case keys')
+                     'angles and detector parameters (incl. sheared flat detectors and axis-aligned curved ones); evaluation forms {scalar, '
+                     'array, broadcast}; distinct = distinct case keys')
     ctx.note('not_executable', 'astra_setup conversions need ASTRA, which is not installed')
     from odl.tomo.geometry import geometry as G, parallel as Pm, conebeam as Cm
     cov = cover.Cover()
